@@ -261,6 +261,40 @@ class LoadEngine(SqlEngine):
             chars.pop()
         return SV("str", CStr(chars), a.null)
 
+    # -- two calendar lemmas, used as rewrites (each is verified for EVERY year 1..9999 by lemma_calendar_rewrites(), which the
+    #    checks that use this engine run and report as an obligation):
+    #      WEEKOFYEAR(MAKE_DATE(y, 12, 28)) = number of ISO weeks of year y      (28 December always lies in the last ISO week)
+    #      DAYOFYEAR(MAKE_DATE(y, 12, 31))  = number of days of year y
+    #    Without them the solver has to rediscover the 400-year structure of the calendar inside every query.
+    @staticmethod
+    def _make_date_of(e: Any, month: int, day: int) -> Any:
+        x = e.this
+        while isinstance(x, exp.Paren):
+            x = x.this
+        if isinstance(x, exp.DateFromParts):
+            m, d = x.args.get("month"), x.args.get("day")
+            if isinstance(m, exp.Literal) and isinstance(d, exp.Literal) and m.name == str(month) and d.name == str(day):
+                return x.args.get("year")
+        return None
+
+    def ev_WeekOfYear(self, e: exp.WeekOfYear, env: Dict[str, SV]) -> SV:
+        ye = self._make_date_of(e, 12, 28)
+        if ye is not None:
+            y = self.eval(ye, env)
+            if y.sort == "int":
+                self.used_functions.add("lemma:weekofyear(y-12-28)=isoweeks(y)")
+                return SV("int", cal.iso_weeks_in_year(y.v), y.null)
+        return super().ev_WeekOfYear(e, env)
+
+    def ev_DayOfYear(self, e: exp.DayOfYear, env: Dict[str, SV]) -> SV:
+        ye = self._make_date_of(e, 12, 31)
+        if ye is not None:
+            y = self.eval(ye, env)
+            if y.sort == "int":
+                self.used_functions.add("lemma:dayofyear(y-12-31)=days(y)")
+                return SV("int", cal.days_in_year(y.v), y.null)
+        return super().ev_DayOfYear(e, env)
+
     def ev_Between(self, e: exp.Between, env: Dict[str, SV]) -> SV:
         """a BETWEEN lo AND hi  =  a >= lo AND a <= hi  in three-valued logic."""
         a = self.eval(e.this, env)
@@ -384,6 +418,26 @@ class LoadEngine(SqlEngine):
                 return SV("ts", 0, True)
             return self.cstr_to_ts(a.v)
         return super().cast(a, to, try_cast, env)
+
+
+def lemma_calendar_rewrites(real_conn: Any = None) -> Tuple[bool, str]:
+    """Verify the two rewrites of LoadEngine for every year 1..9999 (complete over the domain, no solver): the closed forms
+    the base model uses for WEEKOFYEAR / DAYOFYEAR agree with iso_weeks_in_year / days_in_year on 28 / 31 December, and
+    (when a connection is given) so does the real DuckDB."""
+    for y in range(1, 10000):
+        wk = cal.iso_year_week(cal.days_from_civil(y, 12, 28, True))[1]
+        if wk != cal.iso_weeks_in_year(y):
+            return False, f"year {y}: week of 28 December is {wk}, iso_weeks_in_year gives {cal.iso_weeks_in_year(y)}"
+        dy = cal.day_of_year(cal.days_from_civil(y, 12, 31, True))
+        if dy != cal.days_in_year(y):
+            return False, f"year {y}: day of year of 31 December is {dy}, days_in_year gives {cal.days_in_year(y)}"
+    if real_conn is not None:
+        rows = real_conn.execute("SELECT y, WEEKOFYEAR(MAKE_DATE(y, 12, 28)), DAYOFYEAR(MAKE_DATE(y, 12, 31)) "
+                                 "FROM range(1, 10000) t(y)").fetchall()
+        for y, wk, dy in rows:
+            if wk != cal.iso_weeks_in_year(int(y)) or dy != cal.days_in_year(int(y)):
+                return False, f"real DuckDB, year {y}: WEEKOFYEAR={wk} DAYOFYEAR={dy}"
+    return True, "all years 1..9999" + (" (model closed forms and the real DuckDB)" if real_conn is not None else "")
 
 
 @dataclass
